@@ -35,6 +35,9 @@ pub enum Reply {
     Prefix,
     /// the expected value followed by one more digit
     Extended,
+    /// the reply is held back until another recycle of this pool has sent its PING (at most
+    /// 30 ms) and then carries that newer value; without a newer PING it is a correct echo
+    Newest,
 }
 
 #[derive(Clone, Copy, Debug, Serialize, Deserialize, PartialEq, Eq, Hash)]
@@ -148,6 +151,7 @@ async fn serve(srv: Srv, id: usize, mut s: tokio::net::UnixStream) {
             let args: Vec<String> = cmd[1..].to_vec();
             let mut out: Vec<u8> = vec![];
             let mut disconnect = false;
+            let mut hold_for: Option<String> = None;
             {
                 let mut g = lock(&srv);
                 let mut answered = None;
@@ -184,6 +188,10 @@ async fn serve(srv: Srv, id: usize, mut s: tokio::net::UnixStream) {
                             Reply::Empty => out = bulk(""),
                             Reply::Prefix => out = bulk(&args[0][..args[0].len().saturating_sub(1)]),
                             Reply::Extended => out = bulk(&format!("{}7", args[0])),
+                            Reply::Newest => {
+                                hold_for = Some(args[0].clone());
+                                answered = None;
+                            }
                         }
                         g.pings_seen.push(args[0].clone());
                     }
@@ -203,6 +211,28 @@ async fn serve(srv: Srv, id: usize, mut s: tokio::net::UnixStream) {
                 }
                 g.trace.push(format!("conn {} <- {} {:?} -> {:?}", id, name, args, answered));
                 g.conns[id].log.push(Cmd { name, args, answered });
+            }
+            if let Some(own) = hold_for {
+                let mut val = own.clone();
+                for _ in 0..30 {
+                    {
+                        let g = lock(&srv);
+                        if let Some(last) = g.pings_seen.last() {
+                            if *last != own {
+                                val = last.clone();
+                                break;
+                            }
+                        }
+                    }
+                    tokio::time::sleep(Duration::from_millis(1)).await;
+                }
+                out = bulk(&val);
+                let mut g = lock(&srv);
+                let verdict = if val == own { Reply::Echo } else { Reply::Other };
+                if let Some(c) = g.conns[id].log.last_mut() {
+                    c.answered = Some(verdict);
+                }
+                g.trace.push(format!("conn {} held PING {:?} answered with {:?}", id, own, val));
             }
             if disconnect {
                 break 'outer;
@@ -486,15 +516,28 @@ async fn run_case(case: &Case, srv: Srv, out: &mut Out) {
                 }
                 {
                     let g = lock(&srv);
-                    if g.replies.iter().skip(g.n_recycle).any(|r| *r != Reply::Echo) {
+                    if g.replies.iter().skip(g.n_recycle).any(|r| !matches!(r, Reply::Echo | Reply::Newest)) {
                         continue;
                     }
                 }
+                let logs_before: Vec<usize> = lock(&srv).conns.iter().map(|c| c.log.len()).collect();
                 let (a, b) = tokio::join!(
                     tokio::time::timeout(Duration::from_secs(20), pool.get()),
                     tokio::time::timeout(Duration::from_secs(20), pool.get())
                 );
                 out.labels.push("get-pair".into());
+                {
+                    let g = lock(&srv);
+                    for (ci, before) in logs_before.iter().enumerate() {
+                        for c in &g.conns[ci].log[*before..] {
+                            if c.name == "PING" && !c.args.is_empty() && c.answered != Some(Reply::Echo) {
+                                condemned.insert(ci);
+                                bad_replies += 1;
+                                out.labels.push("get-pair:crossed-echo".into());
+                            }
+                        }
+                    }
+                }
                 for r in [a, b] {
                     let mut conn = match r {
                         Err(_) => fail!("get-hung", "one of two concurrent pool.get() calls did not finish"),
@@ -585,6 +628,7 @@ fn case(thorough: bool) -> BoxedStrategy<Case> {
         1 => Just(Reply::Empty),
         2 => Just(Reply::Prefix),
         2 => Just(Reply::Extended),
+        3 => Just(Reply::Newest),
     ];
     let step = prop_oneof![
         10 => Just(Step::Get),
